@@ -109,6 +109,22 @@ package kernel
 //@   ensures [live] j <= 283 ==> Pool(j) >= 10
 //@   pattern Pool(j)
 
+//@ -- a multi-batch mint is at least its last batch
+//@ lemma CumGap(a mathint, b mathint)
+//@   property C25
+//@   induct b
+//@   uses PoolNonNeg
+//@   requires 0 <= a && a < b
+//@   ensures [gap] Cum(b) - Cum(a) >= Size(b) && Size(b) >= 0
+
+//@ -- the positivity horizon: during the first 101 years every batch is at least 363854 (0.00363854 XIN); and the last legacy batch
+//@ lemma MintFloor(b mathint)
+//@   property C25
+//@   uses PoolMono, PoolTable
+//@   requires 0 <= b && b / 365 <= 100
+//@   ensures [floor] Size(b) >= 363854
+//@   ensures [legacy] Size(1706) == 8987671232
+
 // ───────────── the distribution as mathematics ─────────────
 
 //@ -- RawWork: the work of a node as the code computes it from the stored (lead, sign) counts: lead*1e8*120/100 (+ sign*1e8 when sign > 0)
@@ -283,3 +299,35 @@ package kernel
 //@   loop 4 invariant [unfold] SumWork(mints, rangeindex + 1) == SumWork(mints, rangeindex) + (rangeindex >= 0 ? val(mints[rangeindex].Work) : 0)
 //@   loop 4 invariant [shaped-nonneg] SumShaped(accepted, WorkDay(timestamp), val(avg), rangeindex + 1) >= 0
 //@   loop 4 invariant [sum] SumWork(mints, rangeindex + 1) <= Share(SumShaped(accepted, WorkDay(timestamp), val(avg), rangeindex + 1), val(base), val(totalW))
+
+// ───────────── the mint transaction ─────────────
+
+//@ -- BatchOf: the batch (day) number of a timestamp, as checkUniversalMintPossibility computes it
+//@ spec BatchOf(node *Node, ts uint64) mathint = (ts - node.Epoch) / 3600000000000 / 24
+//@ -- MintTime: the part of the state of *Node the mint code relies on
+//@ spec MintNode(node *Node) bool = NodeRep(node) && !isnil(node.persistStore)
+
+//@ -- storage.BadgerStore.ReadLastMintDistribution: reads only. ASSUMED store invariant: a recorded mint distribution is at least the size
+//@ -- of its batch (it was produced by mintMultiBatchesSize: lemma CumGap) — the stored amount is what validateMintSnapshot re-mints.
+//@ assume func (s storage.Store) ReadLastMintDistribution(batch)
+//@   modifies nothing
+//@   ensures err == nil && result0 != nil ==> !fresh(result0) && val(result0.Amount) >= Size(result0.Batch)
+
+//@ func (node *Node) lastMintDistribution
+//@   property C25
+//@   uses MintFloor
+//@   requires node != nil && !isnil(node.persistStore)
+//@   maypanic   -- a storage failure and a recorded batch below 1706 (corrupt store) are fatal by design
+//@   modifies nothing
+//@   ensures [dist] result != nil && result.Batch >= KernelNetworkLegacyEnding && val(result.Amount) >= Size(result.Batch)
+
+//@ func (node *Node) checkUniversalMintPossibility
+//@   property C25
+//@   uses Horizon, CumGap
+//@   requires node != nil && !isnil(node.persistStore)
+//@   -- [horizon]: the last batch with a positive size is 81029 (year 221 of the schedule, lemma Horizon); beyond it amount.Add panics
+//@   requires [horizon] timestamp > node.Epoch ==> BatchOf(node, timestamp) / 365 <= 221
+//@   modifies nothing
+//@   ensures [batch] val(result1) > 0 ==> result0 == BatchOf(node, timestamp) && timestamp > node.Epoch
+//@   ensures [floor] val(result1) > 0 ==> val(result1) >= Size(result0)
+//@   ensures [nonneg] val(result1) >= 0
